@@ -241,7 +241,14 @@ def run_driver(scratch, name, tier, seed, timeout=1800, args=None, outname=None)
     t = time.time()
     r = subprocess.run(cmd, env=goenv(), capture_output=True, text=True)
     if r.returncode != 0:
-        raise Broken("driver %s failed (rc=%d):\n%s" % (name, r.returncode, _tail(r.stdout + r.stderr, 60)))
+        full = r.stdout + r.stderr
+        head = ""
+        ls = full.splitlines()
+        for i, ln in enumerate(ls):
+            if ln.startswith("panic:") or ln.startswith("fatal error:"):
+                head = "\n".join(ls[i:i + 45]) + "\n...\n"     # the Go runtime's report starts here (the tail below may not reach it)
+                break
+        raise Broken("driver %s failed (rc=%d):\n%s%s" % (name, r.returncode, head, _tail(full, 60)))
     mp = os.path.join(out, "meta.json")
     if not os.path.exists(mp):
         raise Broken("driver %s wrote no meta.json" % name)
